@@ -38,6 +38,9 @@ CONSTANTS ResolveName(_, _),    \* see above
 
 RootFile == "root.jst"
 
+\* directive.AppendParameter: URL and the HTTP methods take one Path parameter; a second one is an error
+ParamFault(tok) == tok.k \in Methods \cup {"URL"} /\ Len(tok.p) >= 2
+
 TraceOf(stack) == [j \in 1..Len(stack) |-> [f |-> stack[Len(stack) + 1 - j].f, i |-> stack[Len(stack) + 1 - j].i]]
 
 RECURSIVE ExplDepthFrom(_, _)
@@ -79,6 +82,7 @@ IncStep(S, content) ==
   IF tok.t = "D"
   THEN IF tok.k \in Banned THEN LiveErr(S1, "notallowed")
        ELSE IF tok.k = "JSIGHT" /\ S.stack # <<>> THEN LiveErr(S1, "include-jsight")
+       ELSE IF ParamFault(tok) THEN LiveErr(S1, "paramdup")      \* a second value for a named parameter, reported at scan time
        ELSE LET tr == TraceOf(S.stack)
                 key == IF S.stack = <<>> THEN "" ELSE S.stack[Len(S.stack)].f
                 qtr == IF S.stack = <<>> THEN <<>> ELSE IF CacheHas(S, key) THEN CacheGet(S, key) ELSE tr
